@@ -99,6 +99,20 @@ impl Pattern for MatrixPattern {
                 }
             }
         }
+        // A variable that occurs only once is not referenced by any constraint so
+        // far. Reference it once (as for strings), to force its cell to be bound
+        // so that hosts in which that cell does not exist do not match.
+        for (index, char_var) in self.enumerate() {
+            if matches!(char_var, CharVar::Variable(_))
+                && !constraints
+                    .iter()
+                    .any(|c| c.required_bindings().contains(&index))
+            {
+                constraints.push(
+                    Constraint::try_new(CharacterPredicate::BindingEq, vec![index, index]).unwrap(),
+                );
+            }
+        }
         if constraints.is_empty() {
             // We add one (dummy) constraint for the empty pattern, forcing
             // the matcher to bind the first character to a position in the
